@@ -1,13 +1,263 @@
-import Capella.Model.Reqif
+import Capella.Lemmas.Reqif
 
+/-!
+# C20 — ReqIF export is closed, unique and covers every requirement exactly once
+
+Property theorems only; the model is `Capella/Model/Reqif.lean` (one definition per exporter function),
+helper lemmas live in `Capella/Lemmas/Reqif.lean`.
+
+`doc x m` is the abstract document `export_module` writes for module `m` (`x` = the rich-text
+conversion, a parameter); `«export» x m` is `.ok (doc x m)` or the exception the code raises first.
+Hypotheses that appear below:
+* `Identity m` — distinct model elements have distinct (case-insensitive) uuids, and a definition or
+  data type reached through several attributes is one object;
+* `Typed m` — an enumeration attribute that has a definition has an enumeration definition, and its
+  values are values of that definition's data type (the metamodel's typing);
+* `hasEnumWithoutDef m = false` — no enumeration attribute lacks a definition (the recorded finding:
+  the exporter raises for those).
+-/
 namespace Capella.Props.C20
 open Capella.Reqif
 
-/-- Compressed export contains the same document: whatever the target and the `compress` argument,
-the document a reader gets back from the output is the serialisation of the same abstract document. -/
+/-! ## the exporter produces a document -/
+
+/-- The statement "exporting any module produces a document" at full strength (the rich-text
+converter is only assumed to accept `<div>…</div>` wrappers, as lxml does). -/
+def C20_total : Prop :=
+  ∀ (x : Str → Option Str) (m : Module), (x emptyDiv).isSome = true → (∀ s, (x (wrapDiv s)).isSome = true) →
+    ∃ d, «export» x m = .ok d
+
+/-- It does not hold for the code as it is: a module with one requirement carrying an enumeration
+attribute without definition makes `_build_spec_object_types` fail its assertion. -/
+theorem C20_total_fails : ¬ C20_total := by
+  intro h
+  let r : Req := { uuid := ['r'], longName := [], identifier := [], chapterName := [], name := [], text := [],
+                   type := none, attrs := [{ defn := none, value := .enum [] }] }
+  let m : Module := { modelUuid := ['m'], uuid := ['u'], longName := [], description := [], type := none,
+                      reqs := [r], folders := [] }
+  obtain ⟨d, hd⟩ := h (fun _ => some []) m rfl (fun _ => rfl)
+  have : «export» (fun _ => some []) m = .error .assertion := export_assertion _ m (by decide)
+  rw [this] at hd
+  cases hd
+
+/-- The exact excluded inputs: without an enumeration attribute that lacks a definition the exporter
+returns the document `doc x m` for every module tree, every text and every converter that accepts
+`<div>` wrappers — in particular blank or comment-only fields and any markup characters. -/
+theorem export_total_partial (x : Str → Option Str) (m : Module) (hx : (x emptyDiv).isSome = true)
+    (hdiv : ∀ s, (x (wrapDiv s)).isSome = true) (hE : hasEnumWithoutDef m = false) :
+    «export» x m = .ok (doc x m) :=
+  export_ok x m hx hdiv hE
+
+/-- and with such an attribute the outcome is exactly the assertion failure (no document). -/
+theorem export_enum_without_definition (x : Str → Option Str) (m : Module) (hE : hasEnumWithoutDef m = true) :
+    «export» x m = .error .assertion :=
+  export_assertion x m hE
+
+/-- A successful export is the document `doc x m`. -/
+theorem export_eq_doc (x : Str → Option Str) (m : Module) (d : Doc) (h : «export» x m = .ok d) : d = doc x m := by
+  unfold «export» at h
+  split at h
+  · cases h
+  · exact (Except.ok.inj h).symm
+
+/-! ## closed -/
+
+/-- Every `*-REF` of an exported document is the `IDENTIFIER` of an element of that document —
+datatype references of attribute definitions, definition references of values (standard and
+custom, with and without definition, under the requirement's own type), enumeration value
+references, spec-object-type, specification-type and spec-object references. -/
+theorem refs_closed (x : Str → Option Str) (m : Module) (d : Doc) (h : «export» x m = .ok d)
+    (hI : Identity m) (hT : Typed m) : ∀ i ∈ d.refs, i ∈ d.defs := by
+  have hd := export_eq_doc x m d h
+  subst hd
+  have hE : hasEnumWithoutDef m = false := by
+    cases hh : hasEnumWithoutDef m with
+    | false => rfl
+    | true => rw [export_assertion x m hh] at h; cases h
+  exact refs_closed' x m (req_raw_uuids_nodup m hI) hT hI.dts hE
+
+/-- The reference scheme before the repair is not closed: a definition-less attribute was referenced
+as `NULLTYPE--<T>` while its definition is `_NULL-ATTRIBUTE-DEFINITION--<T>`. -/
+theorem nulltype_ref_dangles (k : Kind) : refAttrDefOldBody k none ≠ attrDefOldBody k none := by
+  cases k <;> decide
+
+/-! ## unique -/
+
+/-- All identifiers of an exported document are pairwise distinct (as structured identifiers). -/
+theorem ids_unique (x : Str → Option Str) (m : Module) (d : Doc) (h : «export» x m = .ok d) (hI : Identity m) :
+    d.defs.Nodup := by
+  have hd := export_eq_doc x m d h
+  subst hd
+  exact defs_nodup x m hI
+
+/-! ## every requirement exactly once, in depth-first order -/
+
+/-- `m.dfs` lists exactly the requirements contained in the module, directly or in nested folders. -/
+theorem dfs_complete (m : Module) (r : Req) : r ∈ m.dfs ↔ m.Contains r :=
+  Module.mem_dfs_iff m r
+
+/-- The spec objects and the hierarchy entries (with their `SPEC-OBJECT-REF`s) are both the module's
+depth-first order — requirements of a container first, then its folders, recursively — for every
+folder tree; the three traversals the exporter codes separately agree. -/
+theorem each_req_once (x : Str → Option Str) (m : Module) :
+    (doc x m).specObjects.map (·.uuid) = m.dfs.map (fun r => up r.uuid) ∧
+    (doc x m).specification.children.map (·.uuid) = m.dfs.map (fun r => up r.uuid) := by
+  rw [doc_specObjects, doc_children]
+  simp [specObject, hierEl, Function.comp_def]
+
+/-- "exactly once": a contained requirement occurs once among the spec objects and once in the
+hierarchy, and nothing else occurs there. -/
+theorem exactly_once (x : Str → Option Str) (m : Module) (hI : Identity m) (r : Req) (hr : m.Contains r) :
+    ((doc x m).specObjects.map (·.uuid)).count (up r.uuid) = 1 ∧
+    ((doc x m).specification.children.map (·.uuid)).count (up r.uuid) = 1 := by
+  obtain ⟨h1, h2⟩ := each_req_once x m
+  rw [h1, h2]
+  have hn := req_uuids_nodup m hI
+  have hm : up r.uuid ∈ m.dfs.map (fun r => up r.uuid) :=
+    List.mem_map.mpr ⟨r, (Module.mem_dfs_iff m r).mpr hr, rfl⟩
+  simp [hn.count, hm]
+
+/-! ## fields, values and enumeration choices intact -/
+
+/-- Position by position the spec objects are the encodings of the requirements in depth-first order. -/
+theorem spec_objects_pointwise (x : Str → Option Str) (m : Module) :
+    (doc x m).specObjects = m.dfs.map (specObject x) :=
+  doc_specObjects x m
+
+/-- The encoding of one requirement: its identifier, long name, the four standard fields under the
+standard definitions of its own type (ForeignID verbatim; the XHTML fields converted from the escaped
+plain text resp. the stored HTML, blank input falling back to the empty value), and one value per
+attribute, in order, each under the definition identifier scoped by the requirement's type. -/
+theorem fields_intact (x : Str → Option Str) (r : Req) :
+    (specObject x r).uuid = up r.uuid ∧
+    (specObject x r).longName = nonEmpty r.longName ∧
+    (specObject x r).std =
+      [⟨"ForeignID".toList, .string, some r.identifier⟩,
+       ⟨"ChapterName".toList, .xhtml, toXhtml x (if r.chapterName = [] then emptyDiv else escape r.chapterName)⟩,
+       ⟨"Name".toList, .xhtml, toXhtml x (if r.name = [] then emptyDiv else escape r.name)⟩,
+       ⟨"Text".toList, .xhtml, toXhtml x (if r.text = [] then emptyDiv else r.text)⟩] ∧
+    (specObject x r).attrs.map (·.kind) = r.attrs.map (·.value.kind) ∧
+    (specObject x r).attrs.map (·.ad) = r.attrs.map (fun a => a.defn.map (fun d => up d.uuid)) := by
+  refine ⟨rfl, rfl, ?_, ?_, ?_⟩
+  · simp [specObject, stdValues, stdSpecObjectAttrs, htmlSource, Field.get, Field.isHtml]
+  · simp [specObject, attrValue, Function.comp_def]
+  · simp [specObject, attrValue, Function.comp_def]
+
+/-- Every exported attribute value reads back as the attribute's value (enumeration choices
+included, in order), for every value that is not exported as a placeholder. -/
+theorem values_intact (a : Attr) (h : a.value.Proper) :
+    Value.decode (attrValue a).kind (attrValue a).theValue (attrValue a).enumRefs = some a.value.upper :=
+  Value.decode_render a.value h
+
+/-- `markupsafe.escape` leaves no markup-significant character in a plain-text field. -/
+theorem escape_no_markup (s : Str) : ∀ c ∈ escape s, c ≠ '<' ∧ c ≠ '>' ∧ c ≠ '"' ∧ c ≠ '\'' := by
+  intro c hc
+  simp only [escape, List.mem_flatMap] at hc
+  obtain ⟨a, _, hc⟩ := hc
+  split at hc
+  · revert c; decide
+  · split at hc
+    · revert c; decide
+    · split at hc
+      · revert c; decide
+      · split at hc
+        · revert c; decide
+        · split at hc
+          · revert c; decide
+          · simp only [List.mem_singleton] at hc
+            subst hc
+            simp_all
+
+/-! ## compressed export contains the same document -/
+
+/-- Whatever the target and the `compress` argument, the document a reader gets back from the
+output (the plain bytes, or the single member of the archive) is the serialisation of the same
+abstract document. -/
 theorem compress_same_document {β : Type} (ser : Doc → β) (d : Doc) (t : Target) (c : Option Bool) :
     (write ser d t c).document = some (ser d) := by
   unfold write
   split <;> rfl
+
+/-- An explicit `compress` argument is honoured for every target; without one, exactly the paths
+ending in `.reqifz` are compressed. -/
+theorem compress_decision (t : Target) :
+    (∀ b, compressDecision t (some b) = b) ∧
+    compressDecision t none = (match t with | .path p => endsWith p ".reqifz".toList | .stream => false) := by
+  refine ⟨fun b => rfl, ?_⟩
+  cases t <;> rfl
+
+/-- The decision as coded before the repair ignored an explicit `compress=True`. -/
+theorem old_decision_ignores_explicit (t : Target) : compressDecisionOld t (some true) = false := by
+  cases t <;> rfl
+
+/-! ## the theorems are not vacuous -/
+
+section examples
+
+private def dt : DataType :=
+  { uuid := "d1".toList, longName := "E".toList,
+    values := [{ uuid := "e1".toList, longName := "a".toList, description := [] },
+               { uuid := "e2".toList, longName := "b".toList, description := [] }] }
+private def ad : AttrDef :=
+  { uuid := "a1".toList, longName := "Sel".toList, description := [], isEnum := true,
+    multiValued := true, dataType := some dt }
+private def rt : ReqType := { uuid := "t1".toList, longName := "T".toList, description := [] }
+private def r1 : Req :=
+  { uuid := "r1".toList, longName := "one".toList, identifier := "ID".toList, chapterName := [],
+    name := "a<b".toList, text := [], type := some rt,
+    attrs := [{ defn := some ad, value := .enum ["e2".toList, "e1".toList] },
+              { defn := none, value := .string "s".toList }] }
+private def r2 : Req :=
+  { uuid := "r2".toList, longName := [], identifier := [], chapterName := [], name := [], text := [],
+    type := none, attrs := [{ defn := none, value := .string "t".toList }, { defn := none, value := .int (-5) }] }
+private def r3 : Req := { r2 with uuid := "r3".toList, type := some rt }
+private def m0 : Module :=
+  { modelUuid := "mm".toList, uuid := "m0".toList, longName := "M".toList, description := [],
+    type := none, reqs := [r1], folders := [.mk [r2] [.mk [r3] []], .mk [] []] }
+private def conv : Str → Option Str := fun s => some s
+
+/-- a module with nested folders, a typed and an untyped requirement, attributes with and without
+definition under two types, an enumeration with two choices: it is exported, -/
+example : «export» conv m0 = .ok (doc conv m0) :=
+  export_total_partial conv m0 rfl (fun _ => rfl) (by decide)
+/-- its depth-first order is r1, r2, r3, -/
+example : m0.dfs.map (·.uuid) = ["r1".toList, "r2".toList, "r3".toList] := by decide
+/-- it has references, all defined, -/
+example : (doc conv m0).refs.length = 42 ∧ (doc conv m0).refs.all (fun i => (doc conv m0).defs.contains i) = true := by
+  decide
+/-- and its 35 identifiers are distinct, as strings too; -/
+example : ((doc conv m0).defs.map Ident.render).length = 35 ∧ ((doc conv m0).defs.map Ident.render).Nodup := by
+  decide
+/-- the hypotheses of the theorems hold for it (object identity by uuid; enumeration typing), -/
+example : Identity m0 := ⟨by decide, by decide, by decide⟩
+private def m0Typed : Typed m0 := by
+  intro r hr a ha vs d hv hd
+  have hr' : r = r1 ∨ r = r2 ∨ r = r3 := by
+    have : m0.dfs = [r1, r2, r3] := by decide
+    simpa [this] using hr
+  rcases hr' with rfl | rfl | rfl
+  · simp only [r1, List.mem_cons, List.not_mem_nil, or_false] at ha
+    rcases ha with rfl | rfl
+    · simp only [Option.some.injEq, Value.enum.injEq] at hd hv
+      subst hd hv
+      exact ⟨rfl, by decide⟩
+    · cases hv
+  · simp only [r2, List.mem_cons, List.not_mem_nil, or_false] at ha
+    rcases ha with rfl | rfl <;> cases hv
+  · simp only [r3, r2, List.mem_cons, List.not_mem_nil, or_false] at ha
+    rcases ha with rfl | rfl <;> cases hv
+example : Typed m0 := m0Typed
+/-- so the theorems apply to it: all of its references resolve and its identifiers are distinct, -/
+example : (∀ i ∈ (doc conv m0).refs, i ∈ (doc conv m0).defs) ∧ (doc conv m0).defs.Nodup :=
+  have hI : Identity m0 := ⟨by decide, by decide, by decide⟩
+  have hx := export_total_partial conv m0 rfl (fun _ => rfl) (by decide)
+  ⟨refs_closed conv m0 _ hx hI m0Typed, ids_unique conv m0 _ hx hI⟩
+/-- the markup character of the plain-text name is escaped before conversion, -/
+example : ((specObject conv r1).std.map (·.theValue))[2]? = some (some "a&lt;b".toList) := by decide
+/-- and the integer value reads back. -/
+example : Value.decode .integer (Value.int (-5)).render [] = some (.int (-5)) :=
+  Value.decode_render (.int (-5)) trivial
+
+end examples
 
 end Capella.Props.C20
